@@ -25,14 +25,14 @@ void replay_witness(const char *l);
 #define WITNESS(l) replay_witness(l)
 #define NONDET(T) ((T)0)
 #else
-#define LOAD(v) do { __typeof__(v) _vt; (v) = _vt; } while (0)
-#define LOADI(a, i) do { __typeof__((a)[0]) _vt; (a)[i] = _vt; } while (0)
+#define LOAD(v) { __typeof__(v) _vt; (v) = _vt; }
+#define LOADI(a, i) { __typeof__((a)[0]) _vt; (a)[i] = _vt; }
 #define ASSUME(c) __CPROVER_assume(c)
 #define CHECK(c, msg) __CPROVER_assert((c), msg)
 #define WITNESS(l) __CPROVER_assert(0, "WITNESS:" l)
 #endif
 
 /* load every element of a fixed-size array (constant bound: CBMC unrolls it) */
-#define LOADA(a, n) do { for (unsigned _li = 0; _li < (unsigned)(n); _li++) LOADI(a, _li); } while (0)
+#define LOADA(a, n) { for (unsigned _li = 0; _li < (unsigned)(n); _li++) LOADI(a, _li); }
 
 #endif
